@@ -147,10 +147,8 @@ def coq_str(s):
 
 def gen_const_tables(enums):
     L = ["(* GENERATED by tools/translate.py (T1) from the newtype_enum! blocks of /repo/src -- do not edit *)",
-         "From Coq Require Import String NArith List.", "Import ListNotations.", "Open Scope N_scope. Open Scope string_scope.",
-         "Inductive nt_mode := NtNone | NtDisplay | NtDebug.",
-         "Record nt_type := mkNt { nt_name : string; nt_mode_of : nt_mode; nt_width : N; nt_derives_debug : bool;",
-         "  nt_consts : list (string * N) }.", ""]
+         "From Coq Require Import String NArith List.", "From TlsModel Require Import NtTypes.", "Import ListNotations.",
+         "Open Scope N_scope. Open Scope string_scope.", ""]
     names = []
     for e in enums:
         mode = {"none": "NtNone", "display": "NtDisplay", "debug": "NtDebug"}[e["mode"]]
